@@ -20,6 +20,10 @@ func NewGenericSyncMap[K comparable, V any]() *GenericSyncMap[K, V] {
 // value is present. The ok result indicates whether value was found
 // in the map.
 func (m *GenericSyncMap[K, V]) Load(key K) (V, bool) {
+	if VerifEnabled {
+		defer VerifSched(m, "Load")()
+	}
+
 	m.mtx.Lock()
 	defer m.mtx.Unlock()
 
@@ -29,6 +33,10 @@ func (m *GenericSyncMap[K, V]) Load(key K) (V, bool) {
 
 // Has returns true if the key is present in the map.
 func (m *GenericSyncMap[K, V]) Has(key K) bool {
+	if VerifEnabled {
+		defer VerifSched(m, "Has")()
+	}
+
 	m.mtx.Lock()
 	defer m.mtx.Unlock()
 
@@ -38,6 +46,10 @@ func (m *GenericSyncMap[K, V]) Has(key K) bool {
 
 // Store sets the value for a key.
 func (m *GenericSyncMap[K, V]) Store(key K, value V) {
+	if VerifEnabled {
+		defer VerifSched(m, "Store")()
+	}
+
 	m.mtx.Lock()
 	defer m.mtx.Unlock()
 
@@ -46,6 +58,10 @@ func (m *GenericSyncMap[K, V]) Store(key K, value V) {
 
 // Delete deletes the value for a key.
 func (m *GenericSyncMap[K, V]) Delete(key K) {
+	if VerifEnabled {
+		defer VerifSched(m, "Delete")()
+	}
+
 	m.mtx.Lock()
 	defer m.mtx.Unlock()
 
@@ -59,6 +75,10 @@ func (m *GenericSyncMap[K, V]) DeleteUnsafe(key K) {
 
 // Len returns the number of items in the map.
 func (m *GenericSyncMap[K, V]) Len() int {
+	if VerifEnabled {
+		defer VerifSched(m, "Len")()
+	}
+
 	m.mtx.Lock()
 	defer m.mtx.Unlock()
 
@@ -70,6 +90,10 @@ func (m *GenericSyncMap[K, V]) Len() int {
 // Note that the callback is called while the map is locked, so it should
 // not call any methods on the map.
 func (m *GenericSyncMap[K, V]) Iterate(cb func(key K, value V) bool) {
+	if VerifEnabled {
+		defer VerifSched(m, "Iterate")()
+	}
+
 	m.mtx.Lock()
 	defer m.mtx.Unlock()
 
@@ -85,6 +109,10 @@ func (m *GenericSyncMap[K, V]) Iterate(cb func(key K, value V) bool) {
 // values in the map should be safe. Calling locking methods on the map
 // from the callback will cause a deadlock.
 func (m *GenericSyncMap[K, V]) WithLockedValueDo(key K, cb func(value V) error) error {
+	if VerifEnabled {
+		defer VerifSched(m, "WithLockedValueDo")()
+	}
+
 	m.mtx.Lock()
 	defer m.mtx.Unlock()
 
